@@ -117,7 +117,8 @@ class RunA:
         self.probes[key] = self.probes.get(key, 0) + n
 
     def oracle(self, key):
-        self.oracle_evals[key] = self.oracle_evals.get(key, 0) + 1
+        if key[:3] in self.props:
+            self.oracle_evals[key] = self.oracle_evals.get(key, 0) + 1
 
     def fail(self, prop, oracle, cls, detail, buf=None):
         if prop in self.props and self.violation is None:
@@ -360,8 +361,11 @@ class RunA:
             fi.ref = None
             if not fi.damaged and fi.kind != 'raw':
                 fi.ref = self.reference(data)
-                if fi.ref is None:
-                    fi.damaged = True  # not a "complete valid frame"
+                if fi.ref is None and 'C20' not in self.props:
+                    # not a "complete valid frame" (C06/C07 wording).  C20
+                    # speaks of every frame the encoder produces, so there
+                    # the frame stays expected and the decoder must take it.
+                    fi.damaged = True
             c.frames.append(fi)
         trailer = bytes.fromhex(ct.get('trailer', ''))
         c.stream = b''.join(f.data for f in c.frames) + trailer
@@ -506,7 +510,7 @@ class RunA:
         if inc.tainted or inc.ptr >= len(c.frames):
             return None
         fi = c.frames[inc.ptr]
-        if fi.damaged or fi.ref is None:
+        if fi.damaged:
             return None
         return fi
 
@@ -610,10 +614,12 @@ class RunA:
             if status == 'ok':
                 n = val[0]
                 if rel == 'complete':
-                    self.check_delivery(c, fi, buf, val,
-                                        self.follows(buf, fi.ref[0], c, fi))
+                    if fi.ref is not None:
+                        self.check_delivery(
+                            c, fi, buf, val,
+                            self.follows(buf, fi.ref[0], c, fi))
                     inc.ptr += 1
-                    if n != fi.ref[0]:
+                    if n != len(fi.data):
                         # out of step; some other property's business here
                         inc.tainted = True
                 elif rel == 'prefix':
@@ -627,7 +633,8 @@ class RunA:
                     break
                 inc.buf = buf[n:]
                 continue
-            if rel == 'complete' and status != 'budget':
+            if rel == 'complete' and status != 'budget' and \
+                    fi.ref is not None:
                 self.oracle('C06.delivery')
                 self.fail('C06', 'delivery',
                           ['delivery', 'refused', fi.kind],
@@ -712,13 +719,14 @@ class RunA:
                                   fi.kind, canon_exc(val)[1:]), fr)
             if status == 'ok':
                 if rel is not None and want == len(fi.data):
-                    self.check_delivery(c, fi, fr, val, 'nothing')
+                    if fi.ref is not None:
+                        self.check_delivery(c, fi, fr, val, 'nothing')
                     inc.ptr += 1
                 inc.delivered += 1
                 inc.buf = buf[want:]
                 continue
             if rel is not None and status != 'budget' and \
-                    want == len(fi.data):
+                    want == len(fi.data) and fi.ref is not None:
                 self.oracle('C06.delivery')
                 self.fail('C06', 'delivery', ['delivery', 'refused', fi.kind],
                           'complete %s frame refused by the decoder' %
